@@ -610,7 +610,10 @@ func (ds *AnySource) HandleExternalTriggers(externalTriggerRowcounts []int64) er
 			return fmt.Errorf("cannot write header to externalTriggerFileBufferedWriter, err %v", err)
 		}
 	}
+	// The counter is also read (under the lock) by ComputeState, which RPC calls use from another goroutine.
+	ds.writingState.Lock()
 	ds.writingState.externalTriggerNumberObserved += len(externalTriggerRowcounts)
+	ds.writingState.Unlock()
 	if ds.writingState.externalTriggerFileBufferedWriter != nil && len(externalTriggerRowcounts) > 0 {
 		_, err := ds.writingState.externalTriggerFileBufferedWriter.Write(getbytes.FromSliceInt64(externalTriggerRowcounts))
 		if err != nil {
@@ -625,11 +628,14 @@ func (ds *AnySource) HandleExternalTriggers(externalTriggerRowcounts []int64) er
 				return fmt.Errorf("cannot flush externalTriggerFileBufferedWriter, err %v", err)
 			}
 		}
+		ds.writingState.Lock()
+		numberObserved := ds.writingState.externalTriggerNumberObserved
+		ds.writingState.externalTriggerNumberObserved = 0
+		ds.writingState.Unlock()
 		clientMessageChan <- ClientUpdate{tag: "EXTERNALTRIGGER",
 			state: struct {
 				NumberObservedInLastSecond int
-			}{NumberObservedInLastSecond: ds.writingState.externalTriggerNumberObserved}} // only exported fields are serialized
-		ds.writingState.externalTriggerNumberObserved = 0
+			}{NumberObservedInLastSecond: numberObserved}} // only exported fields are serialized
 	default:
 	}
 
